@@ -182,7 +182,7 @@ def build_case(rnd, hostile):
         nm = rnd.choice([t['name'] for t in terms])
         r = rnd.random()
         if r < 0.5:
-            ops.append({'op': 'ctx.term', 'ctx': 'c', 'name': nm, 'k': 'settext', 'raw': rnd.choice(['новый текст', '', 'other', '@{X1|plur,datv} part'])})
+            ops.append({'op': 'ctx.term', 'ctx': 'c', 'name': nm, 'k': 'settext', 'raw': rnd.choice(['новый текст', '', 'other', '@{%s|plur,datv} part' % ('X1' if nm != 'X1' else 'X2')])})   # never a reference to the term itself: its resolution order is not part of the property
             plan.append(['settext'])
         elif r < 0.7:
             ops.append({'op': 'ctx.term', 'ctx': 'c', 'name': nm, 'k': 'setform', 'tags': ','.join(rnd.sample(TAGS[:8], 2)), 'text': 'mf'})
